@@ -47,7 +47,7 @@ func checkC17(w *World, tier string) *Report {
 	want := map[string]bool{"NewEVMInterpreter": true, "copyJumpTable": true, "newstack": true, "returnStack": true, "opJump": true, "opJumpi": true,
 		"(*EVM).Cancel": true, "(*EVM).Cancelled": true, "(*EVMInterpreter).Run": true, "(*EVM).Reset": true, "validate": true}
 	s.cloneRule(r, "R17.2", pkVM, func(name string, pr *PairResult) bool { return want[name] })
-	r.need("R17.2", 10)
+	r.need("R17.2", 8)
 	addAtomicRule(w, r, "R17.3")
 	addFreshTracerRule(w, r, "R17.4")
 	r.Assumptions = append(r.Assumptions, "StateDB instances are not shared between concurrently running EVMs (stated in the property)", "sync.Pool and sync/atomic are safe for concurrent use")
@@ -493,7 +493,7 @@ func addSharedConstRule(w *World, r *Report, rule string) {
 					esc = "passed to a dynamic call"
 					// exception (one symbol): the host transfer function invoked by the journal wrapper is the
 					// reference's evm.Context.Transfer call with the same arguments (C13 R13.1).
-					if pa, ok := c.Value.(*ssa.Parameter); ok && pa.Name() == "transfer" && ins.Parent().Name() == "TransferWithRecord" {
+					if pa, ok := c.Value.(*ssa.Parameter); ok && typeBaseName(pa.Type()) == "TransferFunc" && ins.Parent().Name() == "TransferWithRecord" {
 						esc = ""
 					}
 				case isForkPkg(callee.Pkg) && callee.Blocks != nil && idx >= 0 && len(c.Args) == len(callee.Params):
